@@ -1161,6 +1161,9 @@ class Program:
         "std::max_element": "comparison of scalars",
         "std::min_element": "comparison of scalars",
         "std::is_sorted": "comparison of scalars",
+        "std::binary_search": "comparison of scalars", "std::lower_bound": "comparison of scalars", "std::upper_bound": "comparison of scalars",
+        "std::find": "comparison of scalars", "std::count": "comparison of scalars",
+        "std::nextafter": "arith",
         "std::max": "comparison of scalars",
         "std::min": "comparison of scalars",
         "std::swap": "move of scalars / pointers / std::allocator",
